@@ -131,16 +131,11 @@ func buildDirectionlessPairwiseEdgeConstraintForRefs(left pgsql.Expression, righ
 // the traversal root are bound to external nodes
 func (s *Translator) buildPairwiseDirectionlessTraversalPatternRoot(traversalStep *TraversalStep) (pgsql.Query, error) {
 	var (
-		// Partition node constraints
-		_, rightJoinExternal = partitionConstraintByLocality(
-			traversalStep.RightNodeConstraints,
-			pgsql.AsIdentifierSet(traversalStep.RightNode.Identifier, traversalStep.Edge.Identifier),
-		)
-
-		_, leftJoinExternal = partitionConstraintByLocality(
-			traversalStep.LeftNodeConstraints,
-			pgsql.AsIdentifierSet(traversalStep.LeftNode.Identifier, traversalStep.Edge.Identifier),
-		)
+		// Both endpoints are carried by the previous frame, which is part of this select's FROM clause together with
+		// the edge: every node constraint can be evaluated in WHERE, whether or not it references the previous frame
+		// (a constraint without any reference, e.g. WHERE false, must not be lost either).
+		rightJoinExternal = traversalStep.RightNodeConstraints
+		leftJoinExternal  = traversalStep.LeftNodeConstraints
 
 		nextSelect = pgsql.Select{
 			Projection: traversalStep.Projection,
@@ -469,16 +464,11 @@ func (s *Translator) buildSingleBoundDirectionlessTraversalRootWithOuterCorrelat
 // the traversal root are bound to external nodes
 func (s *Translator) buildPairwiseDirectionlessTraversalPatternRootWithOuterCorrelation(traversalStep *TraversalStep) (pgsql.Query, error) {
 	var (
-		// Partition node constraints
-		_, rightJoinExternal = partitionConstraintByLocality(
-			traversalStep.RightNodeConstraints,
-			pgsql.AsIdentifierSet(traversalStep.RightNode.Identifier, traversalStep.Edge.Identifier),
-		)
-
-		_, leftJoinExternal = partitionConstraintByLocality(
-			traversalStep.LeftNodeConstraints,
-			pgsql.AsIdentifierSet(traversalStep.LeftNode.Identifier, traversalStep.Edge.Identifier),
-		)
+		// Both endpoints are carried by the previous frame, which is part of this select's FROM clause together with
+		// the edge: every node constraint can be evaluated in WHERE, whether or not it references the previous frame
+		// (a constraint without any reference, e.g. WHERE false, must not be lost either).
+		rightJoinExternal = traversalStep.RightNodeConstraints
+		leftJoinExternal  = traversalStep.LeftNodeConstraints
 
 		nextSelect = pgsql.Select{
 			Projection: traversalStep.Projection,
